@@ -68,18 +68,33 @@ def pool():
     def tie_text(kind):
         st_ = build.materialise(dict(chains=[_ch("A", ["ALA", "SER", "THR", "ASN"])], waters=[]))
         seq = 100
-        for t in range(4):
-            x = 60.0 + 9.0 * t
-            centre = [x, 60.0, 12.0]
+        for t in range(16):
+            x = 60.0 + 9.0 * (t % 8)
+            y0 = 60.0 + 12.0 * (t // 8)
+            centre = [x, y0, 12.0]
             if kind == "pairs":
-                partners = [[x + 2.6, 60.0, 13.0], [x + 2.6, 60.0, 11.0]]
+                partners = [[x + 2.6, y0, 13.0], [x + 2.6, y0, 11.0]]
             else:
-                partners = [[x + 2.5, 61.0, 12.0], [x + 2.5, 59.0, 12.0], [x - 2.5, 61.0, 12.0], [x - 2.5, 59.0, 12.0]]
+                partners = [[x + 2.5, y0 + 1.0, 12.0], [x + 2.5, y0 - 1.0, 12.0], [x - 2.5, y0 + 1.0, 12.0], [x - 2.5, y0 - 1.0, 12.0]]
             for p_ in [centre] + partners:
                 st_.add(name="O", resn="HOH", chain="A", seq=seq, xyz=np.array(p_), rec="HETATM", group=("water",))
                 seq += 1
         return st_.text()
 
+    def squares_text(ncl):
+        # waters on perfect 2.8 A squares: every water has two partners at exactly the same distance,
+        # and many candidate hydrogen bonds in the network are exactly tied
+        st_ = build.materialise(dict(chains=[_ch("A", ["GLY", "SER", "ALA"])], waters=[]))
+        seq = 1
+        for icl in range(ncl):
+            ox, oy = 60.0 + 20.0 * (icl % 8), 60.0 + 20.0 * (icl // 8)
+            for dx, dy in ((0, 0), (1, 0), (1, 1), (0, 1)):
+                st_.add(name="O", resn="HOH", chain="W", seq=seq, xyz=np.array([ox + 2.8 * dx, oy + 2.8 * dy, 60.0]), rec="HETATM",
+                        group=("water",))  # fmt: skip
+                seq += 1
+        return st_.text()
+
+    out.append(("tie-water-squares", squares_text(64), "pdb", ["--ff=AMBER", "--keep-chain"], {}))
     out.append(("tie-water-pairs", tie_text("pairs"), "pdb", ["--ff=AMBER", "--keep-chain"], {}))
     out.append(("tie-water-quads", tie_text("quads"), "pdb", ["--ff=PARSE"], {}))
     out.append(("pep-amber", pdb(pep), "pdb", ["--ff=AMBER"], {}))
@@ -172,15 +187,21 @@ def _norm(res, d):
     return dict(ok=res["ok"], exc=res.get("exc"), exists=res["exists"], bytes=None if b is None else b.replace(d, "@DIR@"))
 
 
-def run_inproc(text, ext, opts, extra):
+def run_inproc(text, ext, opts, extra, keep_dir=None, keep_output=False):
+    """keep_dir: run in this (existing) directory and leave it in place - the output path then still
+    holds whatever an earlier run of the history wrote there (unless keep_output is False)."""
     from pdb2pqr.main import run_pdb2pqr
 
     from .. import pipeline
 
     pipeline.quiet_logging()
-    d = scratch_dir("vf_c11_")
+    d = keep_dir or scratch_dir("vf_c11_")
     cwd = os.getcwd()
     try:
+        if keep_dir:
+            for fn in os.listdir(d):
+                if not (keep_output and fn == "out.pqr"):
+                    os.remove(os.path.join(d, fn))
         inp = os.path.join(d, f"in.{ext}")
         with open(inp, "w") as fh:
             fh.write(text)
@@ -205,7 +226,8 @@ def run_inproc(text, ext, opts, extra):
         return _norm(res, d)
     finally:
         os.chdir(cwd)
-        shutil.rmtree(d, ignore_errors=True)
+        if not keep_dir:
+            shutil.rmtree(d, ignore_errors=True)
 
 
 _REFS = None
@@ -283,12 +305,15 @@ class Interp:
         self.res = Result()
         self.seen = []
         self.aba = False
+        self.dir = scratch_dir("vf_c11h_")  # ONE directory per history: same input and output paths every run
 
     def run(self, i):
         i = i % len(self.P)
         name, text, ext, opts, extra = self.P[i]
-        got = run_inproc(text, ext, opts, extra)
         ref = self.R[str(i)]["0"]
+        # a successful run overwrites whatever an earlier run left at the output path (often a longer
+        # file); before a run that is expected to fail the path is cleared (C12 owns that rule)
+        got = run_inproc(text, ext, opts, extra, keep_dir=self.dir, keep_output=bool(ref["ok"]))
         if i in self.seen and self.seen[-1] != i:
             self.aba = True
         if not _same(got, ref):
@@ -306,6 +331,7 @@ class Interp:
         self.seen.append(i)
 
     def finish(self):
+        shutil.rmtree(self.dir, ignore_errors=True)
         self.res.nontrivial = self.aba
         self.res.label("A-B-A" if self.aba else "no-repeat", f"len={min(len(self.seen), 12)}")
         return self.res
